@@ -77,9 +77,13 @@ def parseDID (ns did : String) : ParsedDID :=
       match parseInitialState initial with
       | none => .error
       | some c =>
-        let req := createRequestJson "create" c
-        match transformValue req with
-        | some canon => .long did' initial req (utf8Len (String.ofList canon))
+        -- the request handed on is the canonical encoding of the decoded request (with its type
+        -- set), as bytes: what the parser gets is the reading of that text
+        match transformValue (createRequestJson "create" c) with
+        | some canon =>
+          (match Parse.parse canon with
+          | some req => .long did' initial req (utf8Len (String.ofList canon))
+          | none => .error)
         | none => .error
 
 /-- `GetTransformationInfoForUnpublished(ns, "", "", suffix, jcs)` -/
@@ -118,31 +122,31 @@ def resolve (H : HashFam) (orc : Oracles) (ns did : String) : Option Json :=
         | none => none
     | _ => none
 
-/-- the request `ProcessOperation` puts into the DID it returns: the create request as
-    `model.CreateRequest` reads it (members the struct does not know are gone), with the length of
-    its canonical form -/
-def canonicalRequestOf (j : Json) : Option (Json × List Char) :=
+/-- the canonical text `ProcessOperation` puts into the DID it returns: the create request as
+    `model.CreateRequest` reads it (members the struct does not know are gone), re-marshalled -/
+def canonicalRequestOf (j : Json) : Option (List Char) :=
   match Parser.decodeCreate j, (GoJson.topObject j).bind fun top => GoJson.str top "type" with
-  | some c, some ty =>
-    let req := createRequestJson ty c
-    (transformValue req).map fun canon => (req, canon)
+  | some c, some ty => transformValue (createRequestJson ty c)
   | _, _ => none
 
 /-- `DocumentHandler.ProcessOperation` on request bytes (given as size and JSON reading): the
     request as received has to be an acceptable create request, and so has its canonical form,
-    from which the result is computed -/
+    which is read again and from which the result is computed -/
 def processOperation (H : HashFam) (orc : Oracles) (ns : String) (_text : Option (List Char)) (size : Nat) (req : Option Json) :
     Option Json :=
   match Parser.parse H defaultCfg orc ns size req, req with
   | some op, some j =>
     if op.type ≠ .create then none
     else match canonicalRequestOf j with
-      | some (creq, canon) =>
+      | some canon =>
         let csize := utf8Len (String.ofList canon)
-        match Parser.parse H defaultCfg orc ns csize (some creq) with
-        | some cop =>
-          createResponse H orc cop.uniqueSuffix creq csize
-            (unpublishedInfo ns cop.uniqueSuffix (b64EncodeStr (bytesOfString (String.ofList canon))))
+        match Parse.parse canon with
+        | some cj =>
+          (match Parser.parse H defaultCfg orc ns csize (some cj) with
+          | some cop =>
+            createResponse H orc cop.uniqueSuffix cj csize
+              (unpublishedInfo ns cop.uniqueSuffix (b64EncodeStr (bytesOfString (String.ofList canon))))
+          | none => none)
         | none => none
       | none => none
   | _, _ => none
